@@ -3,7 +3,7 @@ import Nstd.Generated.HashLink
   The two-table machine of `PtrModel.lean` (`pstep`) with the bodies TRANSLATED from the current headers
   (`Nstd/Generated/HashLink.lean`, tools/gen_hash.py) in place of the hand-written ones, for every operation whose member is
   translated: append / prepend / insert (→ `insert`), remove by key / iterator / value address, removeFront / removeBack,
-  clear, swap, find, contains, assignment, HashSet bulk append / remove, `==` / `!=`.  the self-argument members.  The remaining operations
+  clear, swap, find, contains, size, isEmpty, front, back, assignment, HashSet bulk append / remove, `==` / `!=`.  the self-argument members.  The remaining operations
   (constructors incl. the copy constructor, value update, the iterator walks of the queries) are those of `pstep`.  `PropsLink.lean` proves `gstep = pstep` on every
   state that represents a model state, hence the refinement theorems hold of this machine.
 -/
@@ -92,11 +92,15 @@ def gstep (kind : Kind) (h : Nat → Nat) (s : PState) (op : Op) : Option (PStat
   if !op.available kind then none else
   match op with
   | .append t k v =>
-    insertOut kind s t (gInsert kind h (s.get t) (.stl (s.get t).self) k v)
-      (fun t' id => some (if kind = Kind.set then .unit else .num (t'.items id).value))
+    match kind with
+    | .map => (HashLink.HashMap.append h (s.get t) k v).map (fun r => (s.set t r.1, .num r.2))
+    | .set => (HashLink.HashSet.append h (s.get t) k).map (fun r => (s.set t r, .unit))
+    | .pool => (HashLink.PoolMap.append h (s.get t) k).map (fun r => (s.set t r.1, .num r.2))
   | .prepend t k v =>
-    insertOut kind s t (gInsert kind h (s.get t) (s.get t).begin k v)
-      (fun t' id => some (if kind = Kind.set then .unit else .num (t'.items id).value))
+    match kind with
+    | .map => (HashLink.HashMap.prepend h (s.get t) k v).map (fun r => (s.set t r.1, .num r.2))
+    | .set => (HashLink.HashSet.prepend h (s.get t) k).map (fun r => (s.set t r, .unit))
+    | .pool => none                                   -- PoolMap has no `prepend` (rejected)
   | .insert t pos k v =>
     match (s.get t).order with
     | none => none
@@ -136,10 +140,30 @@ def gstep (kind : Kind) (h : Nat → Nat) (s : PState) (op : Op) : Option (PStat
       some (s, .onum (match r.2 with | .item id => some (posOf id l) | .stl _ => none))
     | _, _ => none
   | .contains t k =>
-    -- `find(key) != _end`
-    match gFind kind h (s.get t) k with
-    | some r => some (s, .flag (decide (r.2 ≠ .stl (s.get t).self)))
-    | none => none
+    (match kind with
+      | .map => HashLink.HashMap.contains h (s.get t) k
+      | .set => HashLink.HashSet.contains h (s.get t) k
+      | .pool => HashLink.PoolMap.contains h (s.get t) k : Option (PTable × Bool)).map (fun r => (s, .flag r.2))
+  | .size t =>
+    (match kind with
+      | .map => HashLink.HashMap.size h (s.get t)
+      | .set => HashLink.HashSet.size h (s.get t)
+      | .pool => HashLink.PoolMap.size h (s.get t) : Option (PTable × Nat)).map (fun r => (s, .num r.2))
+  | .isEmpty t =>
+    (match kind with
+      | .map => HashLink.HashMap.isEmpty h (s.get t)
+      | .set => HashLink.HashSet.isEmpty h (s.get t)
+      | .pool => HashLink.PoolMap.isEmpty h (s.get t) : Option (PTable × Bool)).map (fun r => (s, .flag r.2))
+  | .front t =>
+    (match kind with
+      | .map => HashLink.HashMap.front h (s.get t)
+      | .set => HashLink.HashSet.front h (s.get t)
+      | .pool => HashLink.PoolMap.front h (s.get t) : Option (PTable × Nat)).map (fun r => (s, .num r.2))
+  | .back t =>
+    (match kind with
+      | .map => HashLink.HashMap.back h (s.get t)
+      | .set => HashLink.HashSet.back h (s.get t)
+      | .pool => HashLink.PoolMap.back h (s.get t) : Option (PTable × Nat)).map (fun r => (s, .num r.2))
   | .assign t => optSet s t (gAssign kind h (s.get t) (s.get (!t))) .unit
   | .appendAll t =>
     optSet s t (if kind = Kind.set then HashLink.HashSet.appendAll h (s.get t) (s.get (!t))
